@@ -76,7 +76,8 @@ DDrainGen(nn, ni) ==
   /\ UNCHANGED <<batch, hasReq, efd, running, alive, kind, by, seqno, nsub, nexec, lastExec, cancelled, fifoOk, threadOk>>
 (* ---- a deferred task is invoked ---- *)
 \* the batch that is being executed: the swapped batch, else the local batches of the current drain generation
-CurBatch == IF ~OnlyInt(batch) THEN batch ELSE IF ~OnlyInt(drainN) THEN drainN ELSE drainI
+\* (in which order the two local batches of a drain generation are worked through is not fixed by C01: they come from different entry points)
+CurBatch == IF ~OnlyInt(batch) THEN batch ELSE drainN \o drainI
 NextUp == IF CurBatch = <<>> THEN 0 ELSE Head(CurBatch)         \* what the code runs next (it works through a batch front to back)
 \* C01 fixes the order only among the submissions of one thread through one entry point: any member of the current batch may run
 \* as long as no earlier member of that batch comes from the same thread and queue (checked through fifoOk as well)
@@ -84,8 +85,7 @@ Runnable(t) == \E i \in 1..Len(CurBatch) : CurBatch[i] = t /\ \A j \in 1..(i - 1
 DExec(t, onLoopThread) ==
   /\ t # 0 /\ ~IsInt(t) /\ Runnable(t)
   /\ IF ~OnlyInt(batch) THEN batch' = Without(batch, t) /\ UNCHANGED <<drainN, drainI>>
-     ELSE IF ~OnlyInt(drainN) THEN drainN' = Without(drainN, t) /\ UNCHANGED <<batch, drainI>>
-     ELSE drainI' = Without(drainI, t) /\ UNCHANGED <<batch, drainN>>
+     ELSE drainN' = Without(drainN, t) /\ drainI' = Without(drainI, t) /\ UNCHANGED batch
   /\ nexec' = [nexec EXCEPT ![t] = @ + 1]
   /\ LET x == <<by[t], kind[t]>> IN
        /\ fifoOk' = (fifoOk /\ seqno[t] > lastExec[x]) /\ lastExec' = [lastExec EXCEPT ![x] = seqno[t]]
